@@ -116,6 +116,19 @@ def shape_leaves(e, out=None, parent=None):
     return out
 
 
+def shape_nodes(e, out=None):
+    """nodes of a parameter-free shape in post order (same order as ExprHarness.build creates them)"""
+    if out is None:
+        out = []
+    if e[0] == "bin":
+        shape_nodes(e[3], out)
+        shape_nodes(e[4], out)
+    elif e[0] == "cast":
+        shape_nodes(e[2], out)
+    out.append(e)
+    return out
+
+
 def shape_ops(e):
     if e[0] == "bin":
         return [e[1]] + shape_ops(e[3]) + shape_ops(e[4])
@@ -205,7 +218,7 @@ class ExprHarness(Harness):
     """one expression shape through one real pass"""
     shim_modules = ("ppci.ir", "ppci.opt.constantfolding", "ppci.opt.transform")
     max_paths = 4000
-    prove_timeout_ms = 20000
+    prove_timeout_ms = 5000
 
     def __init__(self, expr, layout="one", pas="fold"):
         self.expr = expr
@@ -215,6 +228,7 @@ class ExprHarness(Harness):
         self.params = dict(expr=expr, layout=layout, pas=pas)
         self.W = width_for(expr)
         self.leaves = shape_leaves(expr)
+        self.nodes = shape_nodes(expr)
 
     def inputs(self, mk):
         d = {}
@@ -233,8 +247,9 @@ class ExprHarness(Harness):
         m.add_function(f)
         params = {}
         order = []          # instructions in post order
+        nodes = []          # (ir object, user object or None for the root, operand slot of the user), post order
 
-        def mkv(e, root=False):
+        def mkv(e, parent=None):
             k = e[0]
             if k == "y":
                 if e[2] not in params:
@@ -246,12 +261,21 @@ class ExprHarness(Harness):
                 v = ir.Const(inp[e[2]], e[2], tymap[e[1]])
             elif k == "bin":
                 a = mkv(e[3])
+                ia = len(nodes) - 1
                 b = mkv(e[4])
+                ib = len(nodes) - 1
                 v = ir.Binop(a, e[1], b, "t%d" % len(order), tymap[e[2]])
+                if e[3][0] != "y":
+                    nodes[ia] = (nodes[ia][0], v, "a")
+                if e[4][0] != "y":
+                    nodes[ib] = (nodes[ib][0], v, "b")
             else:
                 s = mkv(e[2])
                 v = ir.Cast(s, "t%d" % len(order), tymap[e[1]])
+                if e[2][0] != "y":
+                    nodes[-1] = (nodes[-1][0], v, "src")
             order.append(v)
+            nodes.append((v, None, None))
             return v
 
         root = mkv(self.expr)
@@ -276,7 +300,7 @@ class ExprHarness(Harness):
             b_def.add_instruction(ir.Jump(b_use))
             b_use.add_instruction(order[-1])
             b_use.add_instruction(ret)
-        return ir, m, f, ret
+        return ir, m, f, ret, nodes
 
     def the_pass(self):
         if self.pas == "fold":
@@ -288,7 +312,7 @@ class ExprHarness(Harness):
         raise ValueError(self.pas)
 
     def run(self, inp):
-        ir, m, f, ret = self.build(inp)
+        ir, m, f, ret, nodes = self.build(inp)
         p = self.the_pass()
         p.run(m)
         consts = []
@@ -297,7 +321,18 @@ class ExprHarness(Harness):
                 if isinstance(ins, ir.Const) and ins.ty.name in TYPES:
                     consts.append([ins.ty.name, ins.value])
         handled = sorted(p.ops) if self.pas == "fold" else []
-        return dict(after=describe(ret.result, ir), consts=consts, handled=handled)
+        # per node of the source tree (post order): what its user's operand slot holds now (= what the
+        # node was replaced by) and, for operator nodes, what its own operand slots hold now
+        steps = []
+        for obj, parent, slot in nodes:
+            repl = describe(ret.result if parent is None else getattr(parent, slot), ir)
+            if isinstance(obj, ir.Binop):
+                steps.append([repl, describe(obj.a, ir), describe(obj.b, ir)])
+            elif isinstance(obj, ir.Cast):
+                steps.append([repl, describe(obj.src, ir)])
+            else:
+                steps.append([repl])
+        return dict(after=describe(ret.result, ir), consts=consts, handled=handled, steps=steps)
 
     def post(self, inp, out):
         d0, v0 = eval_shape(self.expr, inp)
@@ -305,14 +340,36 @@ class ExprHarness(Harness):
             return {"exception-only-if-undefined": sym_not(d0)}
         o = out.value
         after = o["after"]
-        if (self.pas == "fold" and not shape_has_param(self.expr) and after[0] != "const"
+        has_param = shape_has_param(self.expr)
+        if (self.pas == "fold" and not has_param and after[0] != "const"
                 and all(op in o["handled"] for op in shape_ops(self.expr))):
             raise core.EngineError("ConstantFolder left an all-constant expression of operators it lists in "
                                    "ConstantFolder.ops unfolded: the check would be vacuous")
-        d1, v1 = eval_desc(after, inp)
         rng = [R.in_range(v, *TYPES[t]) for t, v in o["consts"]]
-        return {"value-agrees": implies(d0, sym_and(d1, v1 == v0)),
-                "consts-in-range": sym_and(*rng) if rng else True}
+        posts = {"consts-in-range": sym_and(*rng) if rng else True}
+        if has_param or len(o["steps"]) != len(self.nodes):
+            # end to end: the IR after the pass denotes the value of the source expression (for all y)
+            d1, v1 = eval_desc(after, inp)
+            posts["value-agrees"] = implies(d0, sym_and(d1, v1 == v0))
+            return posts
+        # all-constant trees: one obligation per node of the source tree, "what replaced the node denotes
+        # the node's operator applied to what replaced its operands".  By induction over the tree the
+        # conjunction is exactly: the IR after the pass denotes the value of the source expression
+        # whenever that is defined (the replacement of the root is what the function returns).
+        for i, (e, st) in enumerate(zip(self.nodes, o["steps"])):
+            dr, vr = eval_desc(st[0], inp)
+            if e[0] == "c":
+                d, v = True, inp[e[2]]
+            elif e[0] == "bin":
+                da, va = eval_desc(st[1], inp)
+                db, vb = eval_desc(st[2], inp)
+                d, v = R.binop(e[1], va, vb, *TYPES[e[2]])
+                d = sym_and(da, db, d)
+            else:
+                d, va = eval_desc(st[1], inp)
+                v = R.cast(va, *TYPES[e[1]])
+            posts[f"value-agrees@{i}:{e[0]}{e[1] if e[0] == 'bin' else ''}"] = implies(d, sym_and(dr, vr == v))
+        return posts
 
 
 class CJumpHarness(Harness):
